@@ -651,9 +651,16 @@ func Derives(v ssa.Value, pred VP) bool {
 				}
 			}
 			for _, r := range *x.Referrers() {
-				if fa, ok := r.(*ssa.FieldAddr); ok {
-					for _, rr := range *fa.Referrers() {
-						if st, ok := rr.(*ssa.Store); ok && st.Addr == fa && rec(st.Val, d-1) {
+				var sub ssa.Value
+				switch fa := r.(type) {
+				case *ssa.FieldAddr:
+					sub = fa
+				case *ssa.IndexAddr:
+					sub = fa
+				}
+				if sub != nil && sub.Referrers() != nil {
+					for _, rr := range *sub.Referrers() {
+						if st, ok := rr.(*ssa.Store); ok && st.Addr == sub && rec(st.Val, d-1) {
 							return true
 						}
 					}
